@@ -57,6 +57,14 @@ class Outer2:
         pass
 
 
+class TimeoutError(Exception):  # noqa: A001 - on purpose: a user exception that shares its NAME with a builtin (mypkg.TimeoutError)
+    pass
+
+
+class ConnectionError(Exception):  # noqa: A001
+    pass
+
+
 class Money:
     """JsonSerializable: to_json / from_json"""
 
@@ -91,6 +99,6 @@ class Outer3:
 
 ENUMS = [Color, Level, Tag, Outer.Inner, Sev, Slot, Weight]
 FLAGS = [Perm]  # oracle only: Perm(99) is a pseudo-member, not a ValueError, so the registry's lookup table does not describe it
-EXCS = [AppError, Outer2.DeepError]
+EXCS = [AppError, Outer2.DeepError, TimeoutError, ConnectionError]
 OBJS = [Money, Outer3.Box]
 BUILTIN_EXCS = [ValueError, KeyError, RuntimeError, TypeError, ZeroDivisionError, LookupError]
